@@ -19,6 +19,7 @@ INS = {
 DELS = {
     "Dt": ("t", "delete from t where k < 3", lambda r: r[0] < 3),
     "Du": ("u", "delete from u where a is null", lambda r: r[0] is None),
+    "DtA": ("t", "delete from t", lambda r: True),       # every row: a later compaction produces no row-set
 }
 OTHER = {
     "CV": "create view vw(x) as select k from t",
@@ -66,6 +67,13 @@ class Model:
             ops += ["C"]
         ops += ["R"]
         return ops
+
+    def apply_rows(self, t, rows):
+        m = Model()
+        m.tables = {k: list(v) for k, v in self.tables.items()}
+        m.view, m.index, m.func = self.view, self.index, self.func
+        m.tables[t] += rows
+        return m
 
     def apply(self, op):
         m = Model()
@@ -123,7 +131,9 @@ def op_step(op):
     return {"op": "reopen"}
 
 
-PREFIXES = {"empty": [], "populated": ["CTt", "It1", "It2", "CTu", "Iu1"]}
+# start states: empty; populated (two tables, two row-sets); churned (every row of two row-sets deleted and
+# the row-sets compacted away: only delete vectors of vanished row-sets are left behind)
+PREFIXES = {"empty": [], "populated": ["CTt", "It1", "It2", "CTu", "Iu1"], "churned": ["CTt", "It1", "DtA", "It2", "DtA", "C"]}
 
 
 def histories(d, prefix=()):
@@ -169,16 +179,24 @@ def build(case):
         steps.append({"op": "reopen"})
         marks.append((len(steps), m, f"final-reopen-{j + 1}"))
         steps += observe_steps(m)
-    # post-reopen script: the database accepts further statements
+    # post-reopen script: the database accepts further statements, and what they write is visible at once
+    # and after one more reopen
     post = len(steps)
     steps += [{"sql": "create table z(q int)"}, {"sql": "insert into z values (7)"}, {"sql": "select q from z"}]
+    mp = m
+    post_obs = []     # (step index, table, expected rows)
     for t in sorted(m.tables):
         row = (99, 99) if t == "t" else (99, "w")
         steps.append({"sql": U.insert_sql(t, [row])})
-        steps.append({"sql": f"select count(*) from {t}"})
+        mp = mp.apply_rows(t, [row])
+        post_obs.append((len(steps), t, list(mp.tables[t])))
+        steps.append({"sql": f"select * from {t}"})
     steps.append({"op": "reopen"})
     steps.append({"sql": "select q from z"})
-    return {"id": 0, "engine": "disk", "opts": case["opts"], "steps": steps}, marks, post, m
+    for t in sorted(m.tables):
+        post_obs.append((len(steps), t, list(mp.tables[t])))
+        steps.append({"sql": f"select * from {t}"})
+    return {"id": 0, "engine": "disk", "opts": case["opts"], "steps": steps}, marks, post, m, post_obs
 
 
 def judge(chk, case, r, states):
@@ -186,7 +204,7 @@ def judge(chk, case, r, states):
     if r.get("abort"):
         chk.fail(cid, "abort", case, r)
         return 0
-    script, marks, post, m = build(case)
+    script, marks, post, m, post_obs = build(case)
     res = r["results"]
     # every history op must be acknowledged (they are all valid in the model)
     observe = set()
@@ -232,9 +250,15 @@ def judge(chk, case, r, states):
         if s not in ("rows", "ok"):
             chk.fail(cid, "post-reopen-statement-fails:" + s.split(":")[0], case, {"step": i, "stmt": script["steps"][i], "result": res[i]})
             return len(res)
-    if U.decode(res[-1]) != [(7,)]:
-        chk.fail(cid, "post-reopen-rows-differ", case, {"got": res[-1]})
+    zi = max(i for i, st in enumerate(script["steps"]) if st.get("sql") == "select q from z")
+    if U.decode(res[zi]) != [(7,)]:
+        chk.fail(cid, "post-reopen-rows-differ", case, {"got": res[zi]})
         return len(res)
+    for (i, t, want) in post_obs:
+        got = U.decode(res[i])
+        if U.mset(got) != U.mset(want):
+            chk.fail(cid, "post-reopen-rows-differ", case, {"table": t, "step": i, "got": got, "model": want})
+            return len(res)
     states.add((core.canon(case["opts"]), core.canon({k: sorted(map(str, v)) for k, v in m.tables.items()}), m.view, m.index, m.func))
     nontriv = "R" in case["history"] or any(o in INS or o in DELS for o in case["history"])
     chk.ok(cid, nontrivial=nontriv, outcome=f"tables={len(m.tables)}", sample={"case": case})
@@ -244,10 +268,10 @@ def judge(chk, case, r, states):
 def run(tier, seed):
     d = depth(tier)
     chk = core.Check("C03", tier, "model_checking",
-                     f"all model-valid histories of exactly {d} operations from the empty database and {d - 1} operations from a populated start state (two tables, two row-sets) (shorter ones are covered as prefixes via the reopen marks) over "
-                     "{create/drop table t,u; 4 insert batches; 2 deletes; create/drop view; create index; create function; forced compaction; reopen} "
+                     f"all model-valid histories of exactly {d} operations from the empty database and {d - 1} operations from two non-initial start states (populated: two tables, two row-sets; churned: two fully deleted row-sets compacted away) (shorter ones are covered as prefixes via the reopen marks) over "
+                     "{create/drop table t,u; 4 insert batches; 3 deletes (two partial, one of every row); create/drop view; create index; create function; forced compaction; reopen} "
                      f"x {len(OPTS)} storage options; each followed by two more reopen cycles and a post-reopen script; oracle: table rows and definitions == model "
-                     "after every reopen, every statement acknowledged, post script succeeds. non-trivial = history has DML or a reopen", seed)
+                     "after every reopen, every statement acknowledged, post script (inserts into every table, read back at once and after one more reopen) agrees with the model. non-trivial = history has DML or a reopen", seed)
     cs = [{"opts": o, "history": h} for o in OPTS for pf in PREFIXES.values() for h in histories(d if not pf else d - 1, pf)]
     # shorter histories too (they end differently: the final reopen happens earlier)
     for dd in range(1, d):
